@@ -125,6 +125,10 @@ func runC03(c *Ctx, idx int, o *Obs) {
 	o.Class = fmt.Sprintf("%s/root%d/len-%s", opts.Shape, len(R.Root.Children), opts.Lens)
 	h := &hist{r: r, t: t}
 	h.singles = hasSingles(t)
+	h.onSmall = func(st *tree.Tree, d string) {
+		o.Ev("edit_left_fewer_than_3_tips", 1)
+		checkStructure(o, st, fmt.Sprintf("%s (fewer than 3 tips left); history: %s; start: %s", d, strings.Join(h.log, " ; "), Trunc(start, 1500)))
+	}
 	if !checkStructure(o, t, "start "+Trunc(start, 200)) {
 		return
 	}
